@@ -89,7 +89,8 @@ impl Run {
             Some(m) => json!({"addr": w.name_of(&m.minter), "cap": m.cap.map(|c| self.amt_of(c, "cap")).unwrap_or(-1)}),
         };
         let accounts = self.paged(|c| {
-            let r: AllAccountsResponse = w.smart(&t, &QueryMsg::AllAccounts { start_after: c, limit: Some(30) }).unwrap();
+            // (one account per page: "the accounts" are what a client gets walking the listing)
+            let r: AllAccountsResponse = w.smart(&t, &QueryMsg::AllAccounts { start_after: c, limit: Some(1) }).unwrap();
             r.accounts.into_iter().map(|a| (a.clone(), json!(w.name_of(&a)))).collect()
         });
         let mut bal = serde_json::Map::new();
